@@ -52,6 +52,9 @@ theorem step_uinv (s s' : St) (l : Label) (h : UInv s) (hs : step s l = some s')
   case connectCmdOk =>
     split at hs <;> cases hs
     exact uinv_frame s _ h rfl rfl rfl (fun _ => rfl) rfl (fun _ => rfl) (fun x => x)
+  case connectCmdRefused =>
+    split at hs <;> cases hs
+    exact uinv_frame s _ h rfl rfl rfl (fun _ => rfl) rfl (fun _ => rfl) (fun x => x)
   case triggerAcquire =>
     split at hs
     · split at hs <;> cases hs
